@@ -144,6 +144,10 @@ pub fn make_case(c: &CaseRef, fx: &Fixtures) -> Option<(String, Cfg, String)> {
             let (s, cfg, d) = tab_case(c.idx);
             Some((s, cfg, d))
         }
+        "raw" => {
+            let (s, cfg, d) = raw_case(c.idx);
+            Some((s, cfg, d))
+        }
         "imp" => {
             let (s, cfg) = imp_case(c.idx);
             Some((s, cfg, "import".into()))
@@ -184,6 +188,7 @@ pub fn universe_size(gen: &str, fx: &Fixtures) -> u64 {
         "imp" => IMP_U,
         "nest" => nest_universe(),
         "tab" => tab_universe(),
+        "raw" => raw_universe(),
         "nl" => NL_U,
         "mal" => MAL_U,
         "mut" => MUT_U,
@@ -378,6 +383,7 @@ fn run_printer(prop: &str, tier: &str, seed: u64, outdir: &str, only: Option<(&'
         select("corp", universe_size("corp", &fx), u64::MAX, seed, &mut cases);
         select("nest", nest_universe(), if thorough { u64::MAX } else { 8_000 }, seed, &mut cases);
         select("tab", tab_universe(), if thorough { 200_000 } else { 5_000 }, seed, &mut cases);
+        select("raw", raw_universe(), if thorough { u64::MAX } else { 5_000 }, seed, &mut cases);
         select("nl", NL_U, if thorough { 60_000 } else { 6_000 }, seed, &mut cases);
         select("mut", MUT_U, if thorough { 150_000 } else { 16_000 }, seed, &mut cases);
         select("fix", universe_size("fix", &fx), nfix, seed, &mut cases);
@@ -639,6 +645,7 @@ fn main() {
                 "imp" => "imp",
                 "nest" => "nest",
                 "tab" => "tab",
+                "raw" => "raw",
                 "nl" => "nl",
                 "mut" => "mut",
                 "corp" => "corp",
@@ -723,7 +730,7 @@ fn main() {
         // vh show <gen> <idx>: the source and configuration of a case
         "show" => {
             let fx = Fixtures::load(FIXTURE_ROOT, true);
-            let gen: &'static str = match args[2].as_str() { "fix" => "fix", "gram" => "gram", "exh" => "exh", "imp" => "imp", "nest" => "nest", "tab" => "tab", "nl" => "nl", "mut" => "mut", "corp" => "corp", _ => "mal" };
+            let gen: &'static str = match args[2].as_str() { "fix" => "fix", "gram" => "gram", "exh" => "exh", "imp" => "imp", "nest" => "nest", "tab" => "tab", "raw" => "raw", "nl" => "nl", "mut" => "mut", "corp" => "corp", _ => "mal" };
             match make_case(&CaseRef { gen, idx: args[3].parse().unwrap_or(0) }, &fx) {
                 Some((s, cfg, d)) => {
                     eprintln!("{:?} {}", cfg, d);
@@ -735,7 +742,7 @@ fn main() {
         // vh abortcase <prop> <gen> <idx> <outdir>: the input on which the process aborted, as an oracle failure
         "abortcase" => {
             let fx = Fixtures::load(FIXTURE_ROOT, true);
-            let gen: &'static str = match args[3].as_str() { "fix" => "fix", "gram" => "gram", "exh" => "exh", "imp" => "imp", "nest" => "nest", "tab" => "tab", "nl" => "nl", "mut" => "mut", "corp" => "corp", _ => "mal" };
+            let gen: &'static str = match args[3].as_str() { "fix" => "fix", "gram" => "gram", "exh" => "exh", "imp" => "imp", "nest" => "nest", "tab" => "tab", "raw" => "raw", "nl" => "nl", "mut" => "mut", "corp" => "corp", _ => "mal" };
             let idx: u64 = args[4].parse().unwrap_or(0);
             if let Some((src, cfg, _)) = make_case(&CaseRef { gen, idx }, &fx) {
                 let j = fail_json_pub(&args[2], gen, idx, &src, cfg, "abort", "the process aborted while formatting this input (allocation failure or abort(); not a panic that could be caught)", "");
